@@ -9,6 +9,7 @@ fn profile_for(prop: &str, variant: u64) -> Profile {
     let mut p = Profile::base();
     match prop {
         "C01" => {
+            p.help_lines = true;
             p.w_enter = 14;
             p.w_tab = 7;
             p.w_up = 6;
@@ -24,6 +25,8 @@ fn profile_for(prop: &str, variant: u64) -> Profile {
             p.max_keys = 100;
         }
         "C06" => {
+            p.help_lines = true;
+            p.w_pool_line = 5;
             p.w_write = 5;
             p.w_set_prompt = 4;
             p.inject_between_bytes = true;
@@ -51,6 +54,8 @@ fn profile_for(prop: &str, variant: u64) -> Profile {
             p.handler_level = 2;
         }
         "C15" => {
+            p.help_lines = true;
+            p.w_pool_line = 8;
             p.w_write = 5;
             p.w_set_prompt = 4;
             p.w_enter = 12;
